@@ -219,6 +219,9 @@ GHOST static void gj_note_order(int target, int idx_blocked) {
 }
 
 static void join_setup(void) {
+  // class "contenders on a finished target": the loser keeps using a handle the winner's join has already let the
+  // library reclaim (the caller's own risk) - tolerate those accesses, the memory is never reused inside an execution
+  if (cfg_get("allow_freed", 0)) vs_heap_allow_freed(1);
   for (int i = 0; i < g_case.n_fibers; i++)
     if (g_case.n_ops[i] > 0 && !strcmp(g_case.ops[i][0].name, "target") && g_case.ops[i][0].a >= 0) {
       gated[i] = 1;
@@ -265,6 +268,7 @@ static int join_do_op(int idx, op_t* op) {
         open_gate(t);
         break;
       }
+      if (op->b == 3 && (j_success[t] || j_detached[t])) break;  // contender on an ungated target: somebody else won
       for (int i = 0; i <= op->c; i++) fiber_yield();
     }
     return 1;
